@@ -28,6 +28,9 @@ def serve_one(req):
     if req['as_text']:
         arg = str(obj) if req['objlang'] != 'CTL' else str(obj.cast_to(fm.lang('CTLS')))
     kw = {}
+    if req.get('parser_from'):
+        # the caller's own parser: the grammar of one logic producing objects of the checker's logic
+        kw['parser'] = fm.lang(req['parser_from']).Parser(language=fm.lang(req['checker']))
     if req.get('F') is not None:
         kw['F'] = [set(nm(s % K['n']) for s in P) for P in req['F']]
     try:
